@@ -94,7 +94,7 @@ impl Property for C05 {
     fn assumptions(&self) -> Vec<String> {
         vec![
             "operator precedence levels are taken from the pinned parser (the repository has no other documentation of them); a consistent change of both printings would be detected, see DESIGN section 4".into(),
-            "the numeric value of a string whose first encoded byte is >= 0x80 is left unasserted (statement silent on signedness); ascii() of characters above U+007F follows the repository test tests/string_encoding/ok.asm (Latin-1 byte up to U+00FF, 0x00 above)".into(),
+            "the numeric value of a string is the unsigned number its encoded bytes spell (size 8 x bytes); ascii() of characters above U+007F follows the repository test tests/string_encoding/ok.asm (Latin-1 byte up to U+00FF, 0x00 above)".into(),
         ]
     }
     fn tape_len(&self, _t: Tier) -> usize {
